@@ -49,7 +49,10 @@ impl CongressSampleBuilder {
             interval: self.interval,
             target_observed: self.target_observed,
             validate_groups: self.validate_groups,
+            #[cfg(not(metrique_verif))]
             next_interval_start: Instant::now(),
+            #[cfg(metrique_verif)]
+            next_interval_start: __verif_clock::now(),
             current_observed: 0,
             groups: Default::default(),
         }
@@ -218,7 +221,10 @@ impl<F, R> CongressSample<F, R> {
     }
 
     fn sample_rate(&mut self, group: Group) -> f32 {
+        #[cfg(not(metrique_verif))]
         let now = Instant::now();
+        #[cfg(metrique_verif)]
+        let now = __verif_clock::now();
         if now > self.next_interval_start {
             self.next_interval_start = now + self.interval;
             self.update_rates();
@@ -271,6 +277,27 @@ impl<F, R> CongressSample<F, R> {
                 };
             }
         }
+    }
+}
+
+/// Verification hook (`--cfg metrique_verif` only): the sampler reads the real clock plus a
+/// per-thread offset that a harness can advance (an idle gap of several intervals in no time).
+#[cfg(metrique_verif)]
+#[doc(hidden)]
+pub mod __verif_clock {
+    use std::cell::Cell;
+    use std::time::{Duration, Instant};
+
+    thread_local! {
+        static OFFSET: Cell<Duration> = const { Cell::new(Duration::ZERO) };
+    }
+
+    pub fn now() -> Instant {
+        Instant::now() + OFFSET.with(|o| o.get())
+    }
+
+    pub fn advance(by: Duration) {
+        OFFSET.with(|o| o.set(o.get() + by));
     }
 }
 
